@@ -27,6 +27,9 @@ def run(chk):
             args += ['--texts', txt]
         parts.append(dict(harness='h_diff', flavour='asan', args=args, cases=(150 if big else 60) if quick else (3000 if big else 400), nshards=1 if quick else 4, nsamples=1 if big else 0))
     chk.run_parts(parts, workers=12 if quick else 4)
+    if not quick:
+        from .. import fuzzwork
+        fuzzwork.run_fuzz(chk, 'fz_lz4', 16 * 3000000, max_len=4096)
     t = chk.tot
     cov['evaluations'] = int(t.get('decodes', 0) + t.get('segments', 0))
     cov['distinct_nontrivial'] = int(t.get('prefix_consistent', 0) + t.get('nontrivial', 0))
